@@ -1,7 +1,559 @@
-/- stub: overwritten by the builder of this engine -/
-import Driver.Common
-open Lean FV FV.Drv
+/-
+Driver for E5 / Python expression core (C08).
 
-def handle (_ : Json) : Except String Json := throw "driver not implemented"
+requests (one JSON object per line):
+  {"op":"visit","pt":G}                       → {"ast":A,"cf":bool}            | {"outside":why}
+  {"op":"run","pt":G,"envs":[E…]}             → {"ast":A,"cf":bool,"pt":[R…],"ast_runs":[R…]} | {"outside":why}
+        R = evalPT on the decoded tree / evalAst on `visit` of it, per environment
+  {"op":"evalast","ast":A,"envs":[E…]}        → {"runs":[R…]}                  | {"outside":why}
+        evalAst on an `ast` serialised by the harness (CPython's own ast)
+
+G = generic ANTLR tree: ["r",ruleName,[children]] | ["t",tokenTypeName,text] |
+    ["t","NUMBER",text,["int",decimal]] | ["t","STRING",text,["str",[codepoints]]]
+The decoder below is grammar-directed and strict: any shape outside the modelled fragment answers
+{"outside":…} (counted by the harness), never a default.
+-/
+import Driver.Common
+import Model.PyExpr
+import Generated.PyExpr
+open Lean FV.Drv
+open FV.Py
+
+namespace PyDrv
+
+abbrev D := Except String
+
+def outside {α} (why : String) : D α := throw s!"outside:{why}"
+
+def arr (j : Json) : D (Array Json) :=
+  match j.getArr? with
+  | .ok a => pure a
+  | .error _ => throw "bad:not an array"
+
+def strOf (j : Json) : D String :=
+  match j.getStr? with
+  | .ok s => pure s
+  | .error _ => throw "bad:not a string"
+
+/-- node kind, name, children / token text -/
+structure G where
+  isRule : Bool
+  name : String
+  kids : Array Json
+  text : String
+  lit : Option Json
+
+def gOf (j : Json) : D G := do
+  let a ← arr j
+  let tag ← strOf (a[0]?.getD Json.null)
+  let name ← strOf (a[1]?.getD Json.null)
+  if tag == "r" then
+    let ks ← arr (a[2]?.getD Json.null)
+    return { isRule := true, name, kids := ks, text := "", lit := none }
+  else if tag == "t" then
+    let t ← strOf (a[2]?.getD Json.null)
+    return { isRule := false, name, kids := #[], text := t, lit := a[3]? }
+  else throw "bad:node tag"
+
+def isTok (g : G) (n : String) : Bool := !g.isRule && g.name == n
+def isRuleN (g : G) (n : String) : Bool := g.isRule && g.name == n
+
+def kidsOf (j : Json) : D (List G) := do
+  let g ← gOf j
+  g.kids.toList.mapM gOf
+
+def identText (g : G) : D String := do
+  if !(isRuleN g "identifier") then throw "bad:identifier expected"
+  match g.kids.toList with
+  | [k] => do
+    let t ← gOf k
+    if t.isRule then throw "bad:identifier child" else pure t.text
+  | _ => throw "bad:identifier arity"
+
+def cmpRuleOf (n : String) : Option CmpRule :=
+  match n with
+  | "eq_bitwise_or" => some .eq | "noteq_bitwise_or" => some .noteq | "lte_bitwise_or" => some .lte
+  | "lt_bitwise_or" => some .lt | "gte_bitwise_or" => some .gte | "gt_bitwise_or" => some .gt
+  | "notin_bitwise_or" => some .notin | "in_bitwise_or" => some .in_ | "isnot_bitwise_or" => some .isnot
+  | "is_bitwise_or" => some .is_
+  | _ => none
+
+def intOfDec (s : String) : D Int :=
+  match s.toInt? with
+  | some i => pure i
+  | none => throw "bad:int literal"
+
+def natList (j : Json) : D (List Nat) :=
+  match natArr j with
+  | .ok l => pure l
+  | .error _ => throw "bad:nat list"
+
+mutual
+partial def dec (g : G) : D PT := do
+  let ks ← g.kids.toList.mapM gOf
+  if !g.isRule then throw s!"bad:token {g.name} where a rule is expected"
+  match g.name, ks with
+  -- transparent wrappers handled by pinned visitors
+  | "named_expression", [e] =>
+    if isRuleN e "expression" then dec e else outside "assignment_expression"
+  | "expression", [d] =>
+    if isRuleN d "disjunction" then return .exprD (← dec d)
+    else outside "lambdef"
+  | "expression", [d0, i, d1, el, e] =>
+    if isTok i "IF" && isTok el "ELSE" && isRuleN d0 "disjunction" && isRuleN d1 "disjunction"
+        && isRuleN e "expression" then
+      return .ternary (← dec d0) (← dec d1) (← dec e)
+    else throw "bad:expression shape"
+  | "disjunction", _ => do
+    let parts ← sepBy ks "OR" "conjunction"
+    return .disj (← parts.mapM dec)
+  | "conjunction", _ => do
+    let parts ← sepBy ks "AND" "inversion"
+    return .conj (← parts.mapM dec)
+  | "inversion", [n, i] =>
+    if isTok n "NOT" && isRuleN i "inversion" then return .invNot (← dec i) else throw "bad:inversion"
+  | "inversion", [c] =>
+    if isRuleN c "comparison" then return .invC (← dec c) else throw "bad:inversion"
+  | "comparison", f :: pairs => do
+    if !(isRuleN f "bitwise_or") then throw "bad:comparison"
+    let ps ← pairs.mapM decPair
+    return .cmp (← dec f) (ps.map (·.1)) (ps.map (·.2))
+  | "bitwise_or", [l, o, r] =>
+    if isRuleN l "bitwise_or" && isTok o "OR_OP" && isRuleN r "bitwise_xor" then return .bor (← dec l) (← dec r)
+    else throw "bad:bitwise_or"
+  | "bitwise_or", [x] => if isRuleN x "bitwise_xor" then return .borT (← dec x) else throw "bad:bitwise_or"
+  | "bitwise_xor", [l, o, r] =>
+    if isRuleN l "bitwise_xor" && isTok o "XOR" && isRuleN r "bitwise_and" then return .bxor (← dec l) (← dec r)
+    else throw "bad:bitwise_xor"
+  | "bitwise_xor", [x] => if isRuleN x "bitwise_and" then return .bxorT (← dec x) else throw "bad:bitwise_xor"
+  | "bitwise_and", [l, o, r] =>
+    if isRuleN l "bitwise_and" && isTok o "AND_OP" && isRuleN r "shift_expr" then return .band (← dec l) (← dec r)
+    else throw "bad:bitwise_and"
+  | "bitwise_and", [x] => if isRuleN x "shift_expr" then return .bandT (← dec x) else throw "bad:bitwise_and"
+  | "shift_expr", [l, o, r] => do
+    if !(isRuleN l "shift_expr" && isRuleN r "sum") then throw "bad:shift_expr"
+    let t ← (if isTok o "LEFT_SHIFT" then pure ShiftTok.LEFT_SHIFT
+             else if isTok o "RIGHT_SHIFT" then pure ShiftTok.RIGHT_SHIFT else throw "bad:shift token")
+    return .shift (← dec l) t (← dec r)
+  | "shift_expr", [x] => if isRuleN x "sum" then return .shiftT (← dec x) else throw "bad:shift_expr"
+  | "sum", [l, o, r] => do
+    if !(isRuleN l "sum" && isRuleN r "term") then throw "bad:sum"
+    let t ← (if isTok o "ADD" then pure SumTok.ADD
+             else if isTok o "MINUS" then pure SumTok.MINUS else throw "bad:sum token")
+    return .sum (← dec l) t (← dec r)
+  | "sum", [x] => if isRuleN x "term" then return .sumT (← dec x) else throw "bad:sum"
+  | "term", [l, o, r] => do
+    if !(isRuleN l "term" && isRuleN r "factor") then throw "bad:term"
+    let t ← (if isTok o "STAR" then pure TermTok.STAR else if isTok o "DIV" then pure TermTok.DIV
+             else if isTok o "IDIV" then pure TermTok.IDIV else if isTok o "MOD" then pure TermTok.MOD
+             else if isTok o "AT" then pure TermTok.AT else throw "bad:term token")
+    return .term (← dec l) t (← dec r)
+  | "term", [x] => if isRuleN x "factor" then return .termT (← dec x) else throw "bad:term"
+  | "factor", [o, x] => do
+    if !(isRuleN x "factor") then throw "bad:factor"
+    let t ← (if isTok o "ADD" then pure FactorTok.ADD else if isTok o "MINUS" then pure FactorTok.MINUS
+             else if isTok o "NOT_OP" then pure FactorTok.NOT_OP else throw "bad:factor token")
+    return .factor t (← dec x)
+  | "factor", [x] => if isRuleN x "power" then return .factorT (← dec x) else throw "bad:factor"
+  | "power", [b, o, e] =>
+    if isRuleN b "await_primary" && isTok o "POWER" && isRuleN e "factor" then return .power (← dec b) (← dec e)
+    else throw "bad:power"
+  | "power", [x] => if isRuleN x "await_primary" then return .powerT (← dec x) else throw "bad:power"
+  | "await_primary", [a, p] =>
+    if isTok a "AWAIT" && isRuleN p "primary" then return .awaitP (← dec p) else throw "bad:await_primary"
+  | "await_primary", [p] => if isRuleN p "primary" then return .awaitT (← dec p) else throw "bad:await_primary"
+  | "primary", [a] => if isRuleN a "atom" then return .primA (← dec a) else throw "bad:primary"
+  | "primary", [p, g2] =>
+    if isRuleN p "primary" && isRuleN g2 "genexp" then outside "genexp call" else throw "bad:primary"
+  | "primary", [p, d, i] =>
+    if isRuleN p "primary" && isTok d "DOT" then return .attr (← dec p) (← identText i)
+    else if isRuleN p "primary" && isTok d "OPEN_PAREN" && isTok i "CLOSE_PAREN" then return .call (← dec p) [] []
+    else throw "bad:primary"
+  | "primary", [p, o, m, c] =>
+    if isRuleN p "primary" && isTok o "OPEN_PAREN" && isRuleN m "arguments" && isTok c "CLOSE_PAREN" then do
+      let as ← decArguments m
+      return .call (← dec p) (as.map (·.1)) (as.map (·.2))
+    else if isRuleN p "primary" && isTok o "OPEN_BRACK" && isRuleN m "slices" && isTok c "CLOSE_BRACK" then do
+      let (ss, tc) ← decSlices m
+      return .subscr (← dec p) ss tc
+    else throw "bad:primary"
+  | "atom", [x] =>
+    if x.isRule then
+      match x.name with
+      | "identifier" => return .name (← identText x)
+      | "strings" => decStrings x
+      | "tuple" => decTuple x
+      | "group" => decGroup x
+      | "list" => decList x
+      | n => outside s!"atom {n}"
+    else
+      match x.name with
+      | "TRUE" => return .true_
+      | "FALSE" => return .false_
+      | "NONE" => return .none_
+      | "ELLIPSIS" => return .ellipsis
+      | "NUMBER" =>
+        match x.lit with
+        | some l => do
+          let a ← arr l
+          let k ← strOf (a[0]?.getD Json.null)
+          if k == "int" then return .num (← intOfDec (← strOf (a[1]?.getD Json.null)))
+          else outside s!"number {k}"
+        | none => throw "bad:NUMBER without value"
+      | n => throw s!"bad:atom token {n}"
+  | n, _ => outside s!"rule {n}"
+
+/-- children = part (SEP part)* -/
+partial def sepBy (ks : List G) (sep rule : String) : D (List G) :=
+  match ks with
+  | [] => throw "bad:empty list"
+  | [x] => if isRuleN x rule then pure [x] else throw s!"bad:{rule} expected"
+  | x :: s :: r => do
+    if !(isRuleN x rule && isTok s sep) then throw s!"bad:{rule} {sep} list"
+    let rest ← sepBy r sep rule
+    pure (x :: rest)
+
+partial def decPair (g : G) : D (CmpRule × PT) := do
+  if !(isRuleN g "compare_op_bitwise_or_pair") then throw "bad:compare pair"
+  match ← g.kids.toList.mapM gOf with
+  | [inner] =>
+    match cmpRuleOf inner.name with
+    | none => throw s!"bad:compare rule {inner.name}"
+    | some r => do
+      let ks ← inner.kids.toList.mapM gOf
+      let toks := ks.filter (fun k => !k.isRule) |>.map (·.name)
+      let ok := match r with
+        | .eq => toks == ["EQUALS"] | .noteq => toks == ["NOT_EQ_2"] || toks == ["NOT_EQ_1"]
+        | .lte => toks == ["LT_EQ"] | .lt => toks == ["LESS_THAN"] | .gte => toks == ["GT_EQ"]
+        | .gt => toks == ["GREATER_THAN"] | .notin => toks == ["NOT", "IN"] | .in_ => toks == ["IN"]
+        | .isnot => toks == ["IS", "NOT"] | .is_ => toks == ["IS"]
+      if !ok then throw s!"bad:tokens of {inner.name}: {toks}"
+      match ks.getLast? with
+      | some o => if isRuleN o "bitwise_or" then pure (r, ← dec o) else throw "bad:pair operand"
+      | none => throw "bad:pair empty"
+  | _ => throw "bad:compare pair arity"
+
+/-- arguments: args ','? -/
+partial def decArguments (g : G) : D (List (ArgKind × PT)) := do
+  match ← g.kids.toList.mapM gOf with
+  | [a] => decArgs a
+  | [a, c] => if isTok c "COMMA" then decArgs a else throw "bad:arguments"
+  | _ => throw "bad:arguments arity"
+
+partial def decArgs (g : G) : D (List (ArgKind × PT)) := do
+  if !(isRuleN g "args") then throw "bad:args"
+  let ks ← g.kids.toList.mapM gOf
+  let mut out : List (ArgKind × PT) := []
+  for k in ks do
+    if isTok k "COMMA" then continue
+    else if isRuleN k "arg" then out := out ++ [← decArg k]
+    else if isRuleN k "kwargs" then out := out ++ (← decKwargs k)
+    else throw "bad:args child"
+  return out
+
+partial def decArg (g : G) : D (ArgKind × PT) := do
+  match ← g.kids.toList.mapM gOf with
+  | [x] =>
+    if isRuleN x "expression" then return (.pos, ← dec x)
+    else if isRuleN x "starred_expression" then return (.star, ← decStarred x)
+    else outside s!"arg {x.name}"
+  | _ => throw "bad:arg arity"
+
+partial def decStarred (g : G) : D PT := do
+  match ← g.kids.toList.mapM gOf with
+  | [s, e] => if isTok s "STAR" && isRuleN e "expression" then dec e else throw "bad:starred_expression"
+  | _ => throw "bad:starred_expression arity"
+
+partial def decKwargs (g : G) : D (List (ArgKind × PT)) := do
+  let ks ← g.kids.toList.mapM gOf
+  let mut out : List (ArgKind × PT) := []
+  for k in ks do
+    if isTok k "COMMA" then continue
+    else if isRuleN k "kwarg_or_starred" || isRuleN k "kwarg_or_double_starred" then
+      match ← k.kids.toList.mapM gOf with
+      | [i, a, e] =>
+        if isTok a "ASSIGN" && isRuleN e "expression" then out := out ++ [(.kw (← identText i), ← dec e)]
+        else throw "bad:kwarg"
+      | [s] =>
+        if isRuleN s "starred_expression" && isRuleN k "kwarg_or_starred" then out := out ++ [(.star, ← decStarred s)]
+        else throw "bad:kwarg starred"
+      | [p, e] =>
+        if isTok p "POWER" && isRuleN e "expression" && isRuleN k "kwarg_or_double_starred" then
+          out := out ++ [(.dstar, ← dec e)]
+        else throw "bad:kwarg dstar"
+      | _ => throw "bad:kwarg arity"
+    else throw "bad:kwargs child"
+  return out
+
+/-- slices: (slice | starred_expression) (',' …)* ','? -/
+partial def decSlices (g : G) : D (List PT × Bool) := do
+  let ks ← g.kids.toList.mapM gOf
+  let trailing := match ks.getLast? with | some l => isTok l "COMMA" | none => false
+  let mut out : List PT := []
+  for k in ks do
+    if isTok k "COMMA" then continue
+    else if isRuleN k "slice" then out := out ++ [← decSlice k]
+    else if isRuleN k "starred_expression" then outside "starred slice"
+    else throw "bad:slices child"
+  return (out, trailing)
+
+partial def decSlice (g : G) : D PT := do
+  let ks ← g.kids.toList.mapM gOf
+  if ks.any (fun k => isTok k "COLON") then
+    let mut parts : Array PT := #[.absent, .absent, .absent]
+    let mut idx := 0
+    for k in ks do
+      if isTok k "COLON" then idx := idx + 1
+      else if isRuleN k "expression" then
+        if idx > 2 then throw "bad:slice parts"
+        parts := parts.set! idx (← dec k)
+      else throw "bad:slice child"
+    return .slice parts[0]! parts[1]! parts[2]!
+  else
+    match ks with
+    | [n] => if isRuleN n "named_expression" then return .sliceE (← dec n) else throw "bad:slice"
+    | _ => throw "bad:slice arity"
+
+partial def decStrings (g : G) : D PT := do
+  match ← g.kids.toList.mapM gOf with
+  | [s] =>
+    if isRuleN s "string" then
+      match ← s.kids.toList.mapM gOf with
+      | [t] =>
+        if isTok t "STRING" then
+          match t.lit with
+          | some l => do
+            let a ← arr l
+            let k ← strOf (a[0]?.getD Json.null)
+            if k == "str" then return .str (← natList (a[1]?.getD Json.null)) else outside s!"string {k}"
+          | none => throw "bad:STRING without value"
+        else throw "bad:string token"
+      | _ => throw "bad:string arity"
+    else outside "fstring"
+  | _ => outside "string concatenation"
+
+/-- star_named_expression: named_expression | '*' bitwise_or -/
+partial def decSNE (g : G) : D PT := do
+  match ← g.kids.toList.mapM gOf with
+  | [n] => if isRuleN n "named_expression" then dec n else throw "bad:star_named_expression"
+  | _ => outside "starred display element"
+
+partial def decSNEs (g : G) : D (List PT) := do
+  let ks ← g.kids.toList.mapM gOf
+  let mut out : List PT := []
+  for k in ks do
+    if isTok k "COMMA" then continue
+    else if isRuleN k "star_named_expression" then out := out ++ [← decSNE k]
+    else throw "bad:star_named_expressions child"
+  return out
+
+partial def decTuple (g : G) : D PT := do
+  match ← g.kids.toList.mapM gOf with
+  | [o, c] => if isTok o "OPEN_PAREN" && isTok c "CLOSE_PAREN" then return .tuple [] else throw "bad:tuple"
+  | [o, f, cm, r, c] =>
+    if isTok o "OPEN_PAREN" && isRuleN f "star_named_expression" && isTok cm "COMMA"
+        && isRuleN r "star_named_expressions" && isTok c "CLOSE_PAREN" then
+      return .tuple ((← decSNE f) :: (← decSNEs r))
+    else throw "bad:tuple"
+  | _ => throw "bad:tuple arity"
+
+partial def decGroup (g : G) : D PT := do
+  match ← g.kids.toList.mapM gOf with
+  | [o, n, c] =>
+    if isTok o "OPEN_PAREN" && isTok c "CLOSE_PAREN" then
+      if isRuleN n "named_expression" then return .group (← dec n) else outside "yield in group"
+    else throw "bad:group"
+  | _ => throw "bad:group arity"
+
+partial def decList (g : G) : D PT := do
+  match ← g.kids.toList.mapM gOf with
+  | [o, c] => if isTok o "OPEN_BRACK" && isTok c "CLOSE_BRACK" then return .list [] else throw "bad:list"
+  | [o, r, c] =>
+    if isTok o "OPEN_BRACK" && isRuleN r "star_named_expressions" && isTok c "CLOSE_BRACK" then
+      return .list (← decSNEs r)
+    else throw "bad:list"
+  | _ => throw "bad:list arity"
+end
+
+/-! ### ast ↔ JSON -/
+
+def jStr (s : String) : Json := Json.str s
+def jInt (i : Int) : Json := Json.str (toString i)
+
+def boolOpName : BoolOpK → String | .And => "And" | .Or => "Or"
+def unOpName : UnOpK → String | .Not => "Not" | .UAdd => "UAdd" | .USub => "USub" | .Invert => "Invert"
+def binOpName : BinOpK → String
+  | .Add => "Add" | .Sub => "Sub" | .Mult => "Mult" | .Div => "Div" | .FloorDiv => "FloorDiv" | .Mod => "Mod"
+  | .MatMult => "MatMult" | .Pow => "Pow" | .LShift => "LShift" | .RShift => "RShift" | .BitOr => "BitOr"
+  | .BitXor => "BitXor" | .BitAnd => "BitAnd"
+def cmpOpName : CmpOpK → String
+  | .Eq => "Eq" | .NotEq => "NotEq" | .Lt => "Lt" | .LtE => "LtE" | .Gt => "Gt" | .GtE => "GtE" | .Is => "Is"
+  | .IsNot => "IsNot" | .In => "In" | .NotIn => "NotIn"
+
+def boolOpOf : String → Option BoolOpK | "And" => some .And | "Or" => some .Or | _ => none
+def unOpOf : String → Option UnOpK
+  | "Not" => some .Not | "UAdd" => some .UAdd | "USub" => some .USub | "Invert" => some .Invert | _ => none
+def binOpOf : String → Option BinOpK
+  | "Add" => some .Add | "Sub" => some .Sub | "Mult" => some .Mult | "Div" => some .Div
+  | "FloorDiv" => some .FloorDiv | "Mod" => some .Mod | "MatMult" => some .MatMult | "Pow" => some .Pow
+  | "LShift" => some .LShift | "RShift" => some .RShift | "BitOr" => some .BitOr | "BitXor" => some .BitXor
+  | "BitAnd" => some .BitAnd | _ => none
+def cmpOpOf : String → Option CmpOpK
+  | "Eq" => some .Eq | "NotEq" => some .NotEq | "Lt" => some .Lt | "LtE" => some .LtE | "Gt" => some .Gt
+  | "GtE" => some .GtE | "Is" => some .Is | "IsNot" => some .IsNot | "In" => some .In | "NotIn" => some .NotIn
+  | _ => none
+
+partial def jAst : Ast → Json
+  | .name s => Json.arr #["Name", jStr s]
+  | .constInt n => Json.arr #["Const", "int", jInt n]
+  | .constBool b => Json.arr #["Const", "bool", Json.bool b]
+  | .constNone => Json.arr #["Const", "None"]
+  | .constStr s => Json.arr #["Const", "str", jNats s]
+  | .constEllipsis => Json.arr #["Const", "Ellipsis"]
+  | .boolOp op vs => Json.arr #["BoolOp", jStr (boolOpName op), Json.arr (vs.map jAst).toArray]
+  | .unaryOp op x => Json.arr #["UnaryOp", jStr (unOpName op), jAst x]
+  | .binOp l op r => Json.arr #["BinOp", jAst l, jStr (binOpName op), jAst r]
+  | .compare l ops cs => Json.arr #["Compare", jAst l, Json.arr (ops.map (fun o => jStr (cmpOpName o))).toArray,
+      Json.arr (cs.map jAst).toArray]
+  | .ifExp t b e => Json.arr #["IfExp", jAst t, jAst b, jAst e]
+  | .await v => Json.arr #["Await", jAst v]
+  | .attribute v a => Json.arr #["Attribute", jAst v, jStr a]
+  | .call f as ks => Json.arr #["Call", jAst f, Json.arr (as.map jAst).toArray, Json.arr (ks.map jAst).toArray]
+  | .keyword a v => Json.arr #["keyword", (match a with | some s => jStr s | none => Json.null), jAst v]
+  | .starred v => Json.arr #["Starred", jAst v]
+  | .subscript v s => Json.arr #["Subscript", jAst v, jAst s]
+  | .slice a b c => Json.arr #["Slice", jAst a, jAst b, jAst c]
+  | .absent => Json.null
+  | .tuple es => Json.arr #["Tuple", Json.arr (es.map jAst).toArray]
+  | .list es => Json.arr #["List", Json.arr (es.map jAst).toArray]
+  | .invalid => Json.arr #["invalid"]
+
+partial def astOf (j : Json) : D Ast := do
+  if j.isNull then return .absent
+  let a ← arr j
+  let tag ← strOf (a[0]?.getD Json.null)
+  let el (i : Nat) : Json := a[i]?.getD Json.null
+  let many (j : Json) : D (List Ast) := do (← arr j).toList.mapM astOf
+  match tag with
+  | "Name" => return .name (← strOf (el 1))
+  | "Const" =>
+    match ← strOf (el 1) with
+    | "int" => return .constInt (← intOfDec (← strOf (el 2)))
+    | "bool" => match (el 2) with
+      | .bool b => return .constBool b
+      | _ => throw "bad:bool const"
+    | "None" => return .constNone
+    | "str" => return .constStr (← natList (el 2))
+    | "Ellipsis" => return .constEllipsis
+    | k => outside s!"constant {k}"
+  | "BoolOp" => match boolOpOf (← strOf (el 1)) with
+    | some o => return .boolOp o (← many (el 2))
+    | none => throw "bad:boolop"
+  | "UnaryOp" => match unOpOf (← strOf (el 1)) with
+    | some o => return .unaryOp o (← astOf (el 2))
+    | none => throw "bad:unaryop"
+  | "BinOp" => match binOpOf (← strOf (el 2)) with
+    | some o => return .binOp (← astOf (el 1)) o (← astOf (el 3))
+    | none => throw "bad:binop"
+  | "Compare" => do
+    let ops ← (← arr (el 2)).toList.mapM (fun o => do
+      match cmpOpOf (← strOf o) with
+      | some c => pure c
+      | none => throw "bad:cmpop")
+    return .compare (← astOf (el 1)) ops (← many (el 3))
+  | "IfExp" => return .ifExp (← astOf (el 1)) (← astOf (el 2)) (← astOf (el 3))
+  | "Await" => return .await (← astOf (el 1))
+  | "Attribute" => return .attribute (← astOf (el 1)) (← strOf (el 2))
+  | "Call" => return .call (← astOf (el 1)) (← many (el 2)) (← many (el 3))
+  | "keyword" => return .keyword (match (el 1) with | .str s => some s | _ => none) (← astOf (el 2))
+  | "Starred" => return .starred (← astOf (el 1))
+  | "Subscript" => return .subscript (← astOf (el 1)) (← astOf (el 2))
+  | "Slice" => return .slice (← astOf (el 1)) (← astOf (el 2)) (← astOf (el 3))
+  | "Tuple" => return .tuple (← many (el 1))
+  | "List" => return .list (← many (el 1))
+  | t => outside s!"ast {t}"
+
+/-! ### values, environments, results -/
+
+partial def valOf (j : Json) : D Val := do
+  let a ← arr j
+  let tag ← strOf (a[0]?.getD Json.null)
+  let el (i : Nat) : Json := a[i]?.getD Json.null
+  match tag with
+  | "int" => return .int (← intOfDec (← strOf (el 1)))
+  | "bool" => match el 1 with
+    | .bool b => return .bool b
+    | _ => throw "bad:bool"
+  | "str" => return .str (← natList (el 1))
+  | "none" => return .none
+  | "ellipsis" => return .ellipsis
+  | "tuple" => return .tuple (← (← arr (el 1)).toList.mapM valOf)
+  | "list" => return .list (← (← arr (el 1)).toList.mapM valOf)
+  | "fn" => return .fn (← strOf (el 1))
+  | t => throw s!"bad:value {t}"
+
+partial def jVal : Val → Json
+  | .int n => Json.arr #["int", jInt n]
+  | .bool b => Json.arr #["bool", Json.bool b]
+  | .str s => Json.arr #["str", jNats s]
+  | .none => Json.arr #["none"]
+  | .ellipsis => Json.arr #["ellipsis"]
+  | .tuple xs => Json.arr #["tuple", Json.arr (xs.map jVal).toArray]
+  | .list xs => Json.arr #["list", Json.arr (xs.map jVal).toArray]
+  | .quot _ _ => Json.arr #["float"]
+  | .slice a b c => Json.arr #["slice", jVal a, jVal b, jVal c]
+  | .fn n => Json.arr #["fn", jStr n]
+
+def envOf (j : Json) : D Env := do
+  match j with
+  | .obj kvs => do
+    let pairs ← kvs.toList.mapM (fun (k, v) => do pure (k, ← valOf v))
+    return fun n => (pairs.find? (fun p => p.1 == n)).map (·.2)
+  | _ => throw "bad:env"
+
+def jErr : Err → Json
+  | .zeroDiv => Json.mkObj [("err", "zeroDiv")]
+  | .typeErr => Json.mkObj [("err", "typeErr")]
+  | .nameErr n => Json.mkObj [("err", "nameErr"), ("name", jStr n)]
+  | .valueErr => Json.mkObj [("err", "valueErr")]
+  | .indexErr => Json.mkObj [("err", "indexErr")]
+  | .attrErr => Json.mkObj [("err", "attrErr")]
+  | .unsupported => Json.mkObj [("unsupported", true)]
+  | .invalid => Json.mkObj [("err", "invalid")]
+
+def jRun (r : Except Err (Val × List String)) : Json :=
+  match r with
+  | .ok (v, log) => Json.mkObj [("ok", jVal v), ("log", Json.arr (log.map jStr).toArray)]
+  | .error e => jErr e
+
+def answer (r : D Json) : Except String Json :=
+  match r with
+  | .ok j => .ok j
+  | .error e =>
+    if e.startsWith "outside:" then .ok (Json.mkObj [("outside", Json.str (e.drop 8).toString)])
+    else .error e
+
+end PyDrv
+
+open PyDrv in
+def handle (j : Json) : Except String Json := do
+  let op ← j.getObjValAs? String "op"
+  let T := FV.Generated.pyTables
+  match op with
+  | "visit" => answer do
+    let pt ← dec (← gOf (← j.getObjVal? "pt"))
+    return Json.mkObj [("ast", jAst (visit T pt)), ("cf", Json.bool (cf T.slicesCommaAware pt))]
+  | "run" => answer do
+    let pt ← dec (← gOf (← j.getObjVal? "pt"))
+    let envs ← (← arr (← j.getObjVal? "envs")).toList.mapM envOf
+    let a := visit T pt
+    return Json.mkObj [("ast", jAst a), ("cf", Json.bool (cf T.slicesCommaAware pt)),
+      ("pt", Json.arr (envs.map (fun ρ => jRun (runM (evalPT ρ pt)))).toArray),
+      ("ast_runs", Json.arr (envs.map (fun ρ => jRun (runM (evalAst ρ a)))).toArray)]
+  | "evalast" => answer do
+    let a ← astOf (← j.getObjVal? "ast")
+    let envs ← (← arr (← j.getObjVal? "envs")).toList.mapM envOf
+    return Json.mkObj [("runs", Json.arr (envs.map (fun ρ => jRun (runM (evalAst ρ a)))).toArray)]
+  | _ => throw s!"unknown op {op}"
 
 def main : IO Unit := run handle
